@@ -151,14 +151,18 @@ Definition hc_over (h c x : Q) : Q := h * c / x * (10000000 # 1).
 Definition hc_over_fl (h c x : Q) : Q := fl (fl (fl (h * c) / x) * (10000000 # 1)).
 
 (* ------------------------------------------------------------------ which table an atom uses *)
-(* Xray(el).element.symbol: an ion asks its base (isotope D/T have their own symbol), an isotope
-   delegates .xray to its element *)
+(* Xray._gettable walks .element down to the Element (ion -> isotope -> element) and names the
+   file after its symbol: every atom of an element uses the element's table *)
+Definition xray_symbol (eb : ebase) (a : atom) : string :=
+  match eb_symbol eb (az a) with Some s => s | None => "?"%string end.
+
+(* Xray.f0 passes self.element.symbol: an isotope delegates .xray to its element, an ion asks its
+   base, and the ions of the named hydrogen isotopes carry the symbol D or T *)
 Definition eb_sym_of (eb : ebase) (a : atom) : string :=
   if (Z.eqb (az a) 1 && Z.eqb (aa a) 2)%bool then "D"%string
   else if (Z.eqb (az a) 1 && Z.eqb (aa a) 3)%bool then "T"%string
   else match eb_symbol eb (az a) with Some s => s | None => "?"%string end.
-
-Definition xray_symbol (eb : ebase) (a : atom) : string :=
+Definition f0_symbol (eb : ebase) (a : atom) : string :=
   if Z.eqb (aq a) 0 then match eb_symbol eb (az a) with Some s => s | None => "?"%string end
   else eb_sym_of eb a.
 
